@@ -1,0 +1,25 @@
+//go:build verif
+
+// Contracts for package settingsstate, checked by /verif (govc). Comment-only.
+package settingsstate
+
+// ---------------------------------------------------------------------------------------------
+// C15: the set of deleted ids derived from the settings log only grows: processing any record other
+// than the snapshot the iteration starts from keeps the state object and never removes an id; only
+// that starting snapshot (the root of the iteration) replaces the state.
+//@ func (*github.com/anyproto/any-sync/commonspace/spacesyncproto.SpaceSettingsContent).GetObjectDelete
+//@   pure
+//@ func (*github.com/anyproto/any-sync/commonspace/spacesyncproto.ObjectDelete).GetId
+//@   pure
+//@ package github.com/anyproto/any-sync/commonspace/settings/settingsstate
+//@ func NewStateFromSnapshot
+//@   modifies nothing
+//@   ensures result != nil
+//@ func (*stateBuilder).processChange
+//@   requires s != nil && change != nil && state != nil
+//@   assumes state.DeletedIds != nil && typeis(change.Model, "*spacesyncproto.SettingsData") && ifaceptr(change.Model) != nil
+//@   ensures [only_the_start_snapshot_replaces] change.Id != rootId ==> result == state
+//@   ensures [grow_only] change.Id != rootId ==> (forall k string :: old(k in state.DeletedIds) ==> (k in state.DeletedIds))
+//@   loop 0:
+//@     invariant forall k string :: old(k in state.DeletedIds) ==> (k in state.DeletedIds)
+//@     invariant state.DeletedIds == old(state.DeletedIds)
